@@ -56,7 +56,7 @@ def enumerate_cases(tier, seed):
     quick = tier == "quick"
     cases = []
     pnames = sorted(problems())
-    nus = [3, 5] if quick else [2, 3, 4, 5, 6, 7]
+    nus = [3, 5] if quick else [2, 3, 4, 5, 6]
     for ssm, calib, lin in itertools.product(("dense", "isotropic", "blockdiag"), ("none", "mle", "dynamic"), ("ts0", "ts1")):
         for strat in ("filter", "fixedpoint"):
             if quick and strat == "fixedpoint" and ssm != "dense":
@@ -78,8 +78,8 @@ def describe(tier, seed):
         rule="case = (part, factorisation, calibration, strategy, linearisation, nu); adaptive: problems x tolerances x layouts x dt0 x clip; remainder: problems x tolerance x remainders x clip; "
              "order: problems x 4 refinement levels; non-trivial = nonlinear or time-dependent problem",
         exhaustive=True,
-        alphabets=dict(problems=sorted(problems()), tolerances=[1e-3, 1e-6] if quick else [1e-2, 1e-4, 1e-6, 1e-9], layouts=["[t0,t1]", "7 equispaced", "irregular with two points 3 eps apart"],
-                       dt0=[1e-4, 0.1, 10.0], clip=[False, True], remainders=[0.0, 1e-13, 0.5e-8, 2e-8, 1e-6, 1e-3], nu=[3, 5] if quick else [2, 3, 4, 5, 6, 7]),
+        alphabets=dict(problems=sorted(problems()), tolerances=[1e-3, 1e-6] if quick else [1e-2, 1e-4, 1e-7], layouts=["[t0,t1]", "7 equispaced", "irregular with two points 3 eps apart"],
+                       dt0=[1e-4, 0.1, 10.0], clip=[False, True], remainders=[0.0, 1e-13, 0.5e-8, 2e-8, 1e-6, 1e-3], nu=[3, 5] if quick else [2, 3, 4, 5, 6]),
         bounds=dict(C=CBOUND, slope_margin=SLOPE_MARGIN, max_steps=5000),
         assumptions=["the tolerance multiple C = 30 is a fixed constant; the evidence records the worst observed ratio"],
     )
@@ -128,7 +128,7 @@ def _run_adaptive(case):
     quick = tier == "quick"
     nu = case["nu"]
     q = nu - 1
-    tols = [1e-3, 1e-6] if quick else [1e-2, 1e-4, 1e-6, 1e-9]
+    tols = [1e-3, 1e-6] if quick else [1e-2, 1e-4, 1e-7]
     fails = []
     worst = 0.0
     n = 0
